@@ -84,7 +84,28 @@ static void logcall(char kind, int fd, long long n, long long ret, const void *b
     if(shim_nlog < SHIM_MAXLOG) { struct shim_logent *e = &shim_logv[shim_nlog++]; e->kind = kind; e->slot = slot; e->fd = fd; e->n = n; e->ret = ret; e->cls = cls; }
 }
 
+/* ThreadSanitizer builds: the sanitizer's own read/write interceptors treat every regular file as one
+ * synchronisation object (a write "releases", a later read by any thread "acquires"), which orders the threads'
+ * library calls for the race detector whenever they do not overlap in time and makes its verdict depend on the
+ * schedule.  The wrappers therefore enter the kernel directly and tell the detector only what memory the call
+ * touches: with that, two threads using the same library-owned memory are reported whatever the timing. */
+#if defined(__has_feature)
+#if __has_feature(thread_sanitizer)
+#define ZV_TSAN 1
+#endif
+#endif
+#ifdef ZV_TSAN
+#include <sys/syscall.h>
+void __tsan_write_range(void *addr, unsigned long size);
+void __tsan_read_range(void *addr, unsigned long size);
+static ssize_t raw_read(int fd, void *buf, size_t n) { ssize_t r = syscall(SYS_read, fd, buf, n); if(r > 0) __tsan_write_range(buf, (unsigned long)r); return r; }
+static ssize_t raw_write(int fd, const void *buf, size_t n) { if(n) __tsan_read_range((void *)buf, (unsigned long)n); return syscall(SYS_write, fd, buf, n); }
+#endif
+
 ssize_t __wrap_read(int fd, void *buf, size_t n) {
+#ifdef ZV_TSAN
+    if(shim_disabled) return raw_read(fd, buf, n);
+#endif
     if(shim_disabled) return __real_read(fd, buf, n);
     long long act; size_t want = n;
     if(fault_for('r', fd, &act)) {
@@ -99,6 +120,9 @@ ssize_t __wrap_read(int fd, void *buf, size_t n) {
 }
 
 ssize_t __wrap_write(int fd, const void *buf, size_t n) {
+#ifdef ZV_TSAN
+    if(shim_disabled) return raw_write(fd, buf, n);
+#endif
     if(shim_disabled) return __real_write(fd, buf, n);
     long long act; size_t want = n;
     if(!env_done) shim_env();
@@ -139,10 +163,31 @@ int __wrap_ftruncate(int fd, off_t len) {
     return r;
 }
 
+/* descriptor ownership: the library may close only descriptors it created itself (mkstemp, dup).  The driver's own
+ * closes bypass the wrapper (zckdrive.c maps close to __real_close), so every call seen here in zckdrive comes from
+ * the library; a close of a number it does not own - already closed, or meanwhile given to someone else - is
+ * interference through the process-wide descriptor table (C19). */
+static char lib_owned[MAXFD];
+int shim_foreign_closes;
+int __real_close(int fd);
+int __real_dup(int fd);
+int __wrap_close(int fd) {
+    if(shim_disabled) return __real_close(fd);
+    if(fd >= 0 && fd < MAXFD) { if(!lib_owned[fd]) shim_foreign_closes++; lib_owned[fd] = 0; }
+    else shim_foreign_closes++;
+    return __real_close(fd);
+}
+int __wrap_dup(int fd) {
+    int r = __real_dup(fd);
+    if(!shim_disabled && r >= 0 && r < MAXFD) lib_owned[r] = 1;
+    return r;
+}
+
 int __wrap_mkstemp(char *t) {
     if(shim_disabled) return __real_mkstemp(t);
     int fd = __real_mkstemp(t);
     temp_fd = fd;
+    if(fd >= 0 && fd < MAXFD) lib_owned[fd] = 1;
     if(fd >= 0 && fd < MAXFD) { wbytes[fd] = 0; for(int k = 0; k < 4; k++) calls[k][fd] = 0; }
     return fd;
 }
